@@ -3,10 +3,16 @@
 
     Part A: the [files] store: event-indexed per-file step relation [fstepE],
             guard inversion of [EFs], frame, per-file invariant [finv].
-    Part B: who renamed ([renamer_inv]); the plan fact [iofinal_final];
-            F1, F2/F5 (rename after every write), F4 (no publication after an
-            announce began), F3 (what is provable about temp files at done).
-    Part C: C11: permits of IO tasks, one pending child per submitter. *)
+    Part B: F1 (only the rename publishes, once); who renamed ([renamer_inv]);
+            every KIOFinal task is final ([iofinal_final], from the kind guard
+            of ESubmit); F2/F5 (no writer after publication, writes frozen);
+            F3 (success: renamed before set_result; what is provable about
+            temp files at done on failure); F4 (no publication once an
+            announce began: [done_file_frozen]).
+    Part C: C11: permits of IO tasks, tag semaphores, one pending child per
+            submitter.
+    Part D: F2/F5 strong form (every IO write task of a published download
+            completed its main), with SysStage's single-IO-worker FIFO lemma. *)
 From Coq Require Import ZArith List Bool Lia.
 From S3V Require Import model.Sys proofs.SysBase proofs.SysCoord proofs.SysCoordInv proofs.SysTask proofs.SysQuiesce.
 From S3V Require proofs.SysStage.
